@@ -87,17 +87,17 @@ MergeStep(n, pp, join, ign) ==              \* MergeRemoteState, events part; ig
       r == Replay(n1, Flat(pp.evs), <<>>) IN
   Res(r.n, r.dl, <<>>)
 
-UevStep(n, k) ==                            \* Serf.UserEvent: time read, clock incremented, handled, queued
+UevStep(n, k) ==                            \* Serf.UserEvent: lt := Increment() - 1 (one step), handled, queued
   LET lt == n.ec
       n1 == [n EXCEPT !.ec = Wrap(@ + 1), !.nloc = @ + 1]
       h == Handle(n.b, n1.ec, n1.emin, n1.ebuf, lt, k) IN
   Res([n1 EXCEPT !.ec = h.c, !.ebuf = h.buf],
       IF h.new THEN << <<1, lt, k>> >> ELSE <<>>, << <<1, lt, k>> >>)
 
-LqStep(n) ==                                \* Serf.Query: time read, handled (the witness advances the clock), queued
+LqStep(n) ==                                \* Serf.Query: lt := Increment() - 1 (one step), handled, queued
   LET lt == n.qc
       id == 100 + n.nlq
-      h == Handle(n.b, n.qc, n.qmin, n.qbuf, lt, id) IN
+      h == Handle(n.b, Wrap(n.qc + 1), n.qmin, n.qbuf, lt, id) IN
   Res([n EXCEPT !.qc = h.c, !.qbuf = h.buf, !.nlq = @ + 1, !.nloc = @ + 1],
       IF h.new THEN << <<2, lt, id>> >> ELSE <<>>, << <<2, lt, id>> >>)
 
